@@ -63,6 +63,9 @@ func clauseKinds(info *types.Info, cc *ast.CaseClause) []string {
 
 func runC10(p *core.Program, r *core.Report) {
 	f := p.FuncByName("pkg/gengo/internal", "(*Dumper).ValueLit")
+	if f != nil {
+		f = flatten(p, f) // arms moved into private helpers are seen in place
+	}
 	if f == nil {
 		r.Anchor("R1", "pkg/gengo/internal.(*Dumper).ValueLit")
 		return
